@@ -323,6 +323,9 @@ def run_single(name, playback=True, timeout=1800):
         subprocess.run(['pkill', '-9', '-f', 'cbmc .*%s' % CRATE])
     failed_checks = re.findall(r'Failed Checks: (.*)', log)
     status = 'fail' if 'VERIFICATION:- FAILED' in log else ('ok' if 'VERIFICATION:- SUCCESSFUL' in log else 'undecided')
+    # a time-out, a solver abort (memory cap) or a missing list of failed checks is not a refutation
+    if status == 'fail' and (re.search(r'timed out|CBMC failed|TIMEOUT|out of memory|std::bad_alloc', log) or not failed_checks):
+        status = 'undecided'
     vals = None
     m = re.search(r'let concrete_vals: Vec<Vec<u8>> = vec!\[(.*?)\n\s*\];', log, re.S)
     if m:
